@@ -217,9 +217,16 @@ pub(crate) fn wrap_single_line_slow_path<'a>(
     options: &Options<'_>,
     lines: &mut Vec<Cow<'a, str>>,
 ) {
+    // The first line of this paragraph is only the first line of
+    // the output if no lines have been produced yet.
+    let first_indent = if lines.is_empty() {
+        options.initial_indent
+    } else {
+        options.subsequent_indent
+    };
     let initial_width = options
         .width
-        .saturating_sub(display_width(options.initial_indent));
+        .saturating_sub(display_width(first_indent));
     let subsequent_width = options
         .width
         .saturating_sub(display_width(options.subsequent_indent));
